@@ -227,12 +227,13 @@ func TestProp_C20_Race(t *testing.T) {
 // random bytes: every call succeeds, every text arrives intact, SMP with equal secrets succeeds, and no two
 // sessions share a session id (which independent randomness makes a 2^-64 event).
 type SysScript struct {
-	Pairs  int `json:"pairs"`
-	Rounds int `json:"rounds"`
-	V      int `json:"v"`
+	Pairs  int  `json:"pairs"`
+	Rounds int  `json:"rounds"`
+	V      int  `json:"v"`
+	Shared bool `json:"shared,omitempty"` // all A sides are conversations of one account: they share one freshly loaded key object
 }
 
-func sysPair(i int, sc *SysScript) (ssids [][8]byte, err error) {
+func sysPair(i int, sc *SysScript, account *otr3.DSAPrivateKey) (ssids [][8]byte, err error) {
 	defer func() {
 		if r := recover(); r != nil {
 			err = fmt.Errorf("panic: %v", r)
@@ -242,7 +243,7 @@ func sysPair(i int, sc *SysScript) (ssids [][8]byte, err error) {
 	if sc.V == 2 || (sc.V == 0 && i%3 == 1) {
 		pol = sim.PolV2
 	}
-	w := sim.NewWorld(sim.PartyOpts{Name: "A", KeyI: (2 * i) % sim.PoolSize(), Pol: pol, SysRand: true}, sim.PartyOpts{Name: "B", KeyI: (2*i + 1) % sim.PoolSize(), Pol: pol, SysRand: true})
+	w := sim.NewWorld(sim.PartyOpts{Name: "A", KeyI: (2 * i) % sim.PoolSize(), KeyObj: account, Pol: pol, SysRand: true}, sim.PartyOpts{Name: "B", KeyI: (2*i + 1) % sim.PoolSize(), Pol: pol, SysRand: true})
 	w.OnCall = func(c *sim.Call) {
 		if c.Err != nil && err == nil {
 			err = fmt.Errorf("%s.%s: %v", w.P[c.Who].Name, c.Name, c.Err)
@@ -307,6 +308,11 @@ func runSys(sc *SysScript) *sim.Outcome {
 	k := sc.Pairs
 	res := make([][][8]byte, k)
 	errs := make([]error, k)
+	var account *otr3.DSAPrivateKey
+	if sc.Shared {
+		account = sim.PoolKey(0) // parsed just now: nothing has used this object yet
+		o.Class("one-account-key-object")
+	}
 	var wg sync.WaitGroup
 	gate := make(chan struct{})
 	for i := 0; i < k; i++ {
@@ -314,7 +320,7 @@ func runSys(sc *SysScript) *sim.Outcome {
 		go func(i int) {
 			defer wg.Done()
 			<-gate
-			res[i], errs[i] = sysPair(i, sc)
+			res[i], errs[i] = sysPair(i, sc, account)
 		}(i)
 	}
 	close(gate)
@@ -347,7 +353,101 @@ func TestProp_C20_SysRand(t *testing.T) {
 		maxPairs = 32
 	}
 	rapid.Check(t, func(rt *rapid.T) {
-		sc := &SysScript{Pairs: rapid.IntRange(8, maxPairs).Draw(rt, "pairs"), Rounds: rapid.IntRange(1, 3).Draw(rt, "rounds"), V: rapid.SampledFrom([]int{0, 3, 2}).Draw(rt, "v")}
+		sc := &SysScript{Pairs: rapid.IntRange(8, maxPairs).Draw(rt, "pairs"), Rounds: rapid.IntRange(1, 3).Draw(rt, "rounds"), V: rapid.SampledFrom([]int{0, 3, 2}).Draw(rt, "v"), Shared: rapid.Bool().Draw(rt, "shared")}
 		sim.Judge(rt, "C20sysrand", sc)
 	})
+}
+
+// ---- one conversation's randomness source takes its time ----
+
+// StallCase: conversation pair X's randomness source blocks at read K of party Who during its key exchange; while it
+// is parked there, an unrelated pair (other keys, other randomness) must be able to run a whole session.
+type StallCase struct {
+	V   int `json:"v"`
+	Who int `json:"who"`
+	K   int `json:"k"`
+}
+
+func runStall(c *StallCase) *sim.Outcome {
+	o := &sim.Outcome{}
+	pol := sim.PolV3
+	if c.V == 2 {
+		pol = sim.PolV2
+	}
+	x := sim.NewWorld(sim.PartyOpts{Name: "XA", Seed: 7100, KeyI: 0, Pol: pol}, sim.PartyOpts{Name: "XB", Seed: 7201, KeyI: 1, Pol: pol})
+	r := x.P[c.Who].R
+	r.BlockAt, r.Blocked, r.Release = c.K, make(chan struct{}), make(chan struct{})
+	xDone := make(chan struct{})
+	go func() {
+		defer close(xDone)
+		defer func() { recover() }()
+		x.Handshake(0)
+	}()
+	select {
+	case <-r.Blocked:
+	case <-xDone:
+		// the exchange needed fewer reads than K: nothing is parked
+		o.Discard = true
+		return o
+	}
+	other := make(chan string, 1)
+	go func() {
+		defer func() {
+			if p := recover(); p != nil {
+				other <- fmt.Sprint("panic: ", p)
+			}
+		}()
+		y := sim.NewWorld(sim.PartyOpts{Name: "YA", Seed: 7300, KeyI: 2, Pol: pol}, sim.PartyOpts{Name: "YB", Seed: 7401, KeyI: 3, Pol: pol})
+		if !y.Handshake(1) {
+			other <- "its key exchange did not complete"
+			return
+		}
+		y.Send(0, []byte("while the other conversation waits for its randomness"))
+		got := false
+		for _, cc := range y.Flush(100) {
+			if cc.HasPl {
+				got = true
+			}
+		}
+		if !got {
+			other <- "its text did not arrive"
+			return
+		}
+		other <- ""
+	}()
+	var verdict string
+	select {
+	case verdict = <-other:
+	case <-time.After(90 * time.Second):
+		verdict = "it made no progress for 90 seconds (an ordinary session takes well under a second)"
+	}
+	close(r.Release)
+	<-xDone
+	if verdict != "" {
+		return o.Fail("C20/blocked-by-other-conversation", "while conversation %s was waiting inside read %d of its own randomness source, an unrelated pair of conversations could not run a session: %s", x.P[c.Who].Name, c.K, verdict)
+	}
+	if !x.P[0].C.IsEncrypted() || !x.P[1].C.IsEncrypted() {
+		return o.Fail("C20/stalled-conversation-broken", "after its randomness source answered at last, the stalled pair's key exchange did not complete")
+	}
+	o.Class(fmt.Sprintf("parked-at-read-%d", c.K))
+	o.NonTrivial = true
+	return o
+}
+
+func init() { reg("C20stall", runStall) }
+
+func TestProp_C20_Stall(t *testing.T) {
+	si, sn := sim.Shard()
+	idx := 0
+	for _, v := range []int{3, 2} {
+		for who := 0; who < 2; who++ {
+			for k := 0; k < 10; k++ {
+				idx++
+				if idx%sn == si {
+					sim.Judge(t, "C20stall", &StallCase{V: v, Who: who, K: k})
+				}
+			}
+		}
+	}
+	sim.MarkCompleted("C20stall", true)
 }
